@@ -17,11 +17,15 @@ EXPLANATION = ('layer generators walk first->next / last->prev; forward applies 
 TRUSTED = ['CPython ast', 'C02, C03, C04 (rotation, transform, embed, compose semantics)', 'propositional entailment of path conditions']
 
 
-def indep_truth(expr, other):
-    """Evaluate a gate-independence predicate on concrete qubit tuples; True iff it equals set-disjointness."""
-    from ..exprnf import ev, Undecidable
-    cases = [((0,), (0,)), ((0,), (1,)), ((0, 1), (1, 2)), ((0, 1), (2, 3)), ((2,), (0, 1, 2)), ((3, 4), (0, 1)), ((0, 2), (1, 3)),
-             ((1, 0), (1,)), ((1, 0), (2,)), ((3, 1), (2,)), ((0, 3), (1, 2)), ((2, 0), (0, 2)), ((5,), (4, 6)), ((4, 2, 0), (3, 1))]
+def indep_truth(fn, other):
+    """Execute a gate-independence predicate (the whole method body) on concrete qubit tuples - sorted and unsorted, of one to
+    three qubits; the predicate only compares qubit indices, so these orderings exhaust its behaviours on supports this small.
+    True iff it equals set-disjointness on all of them, else the first failing pair; None if not executable."""
+    from ..exprnf import Undecidable
+    from .. import mini
+    import itertools
+    tuples = [t for k in (1, 2) for t in itertools.permutations(range(4), k)] + [(4, 2, 0), (0, 1, 2), (3, 1), (5,), (4, 6), (2, 5, 3)]
+    cases = [(a, b) for a in tuples for b in tuples]
     try:
         for a, b in cases:
             def attr(n, env, rec, a=a, b=b):
@@ -33,18 +37,22 @@ def indep_truth(expr, other):
                 raise Undecidable('attr')
 
             def call(n, env, rec):
-                fn = norm(n.func)
-                if fn in ('set', 'len', 'tuple', 'list', 'frozenset', 'any', 'all', 'bool'):
+                fn_ = norm(n.func)
+                if fn_ in ('set', 'len', 'tuple', 'list', 'frozenset', 'any', 'all', 'bool', 'sorted', 'min', 'max'):
                     return {'set': set, 'len': len, 'tuple': tuple, 'list': list, 'frozenset': frozenset, 'any': any,
-                            'all': all, 'bool': bool}[fn](*[rec(x) for x in n.args])
+                            'all': all, 'bool': bool, 'sorted': lambda x: tuple(sorted(x)), 'min': min, 'max': max}[fn_](*[rec(x) for x in n.args])
                 if isinstance(n.func, ast.Attribute) and n.func.attr in ('isdisjoint', 'intersection'):
                     return getattr(set(rec(n.func.value)), n.func.attr)(*[set(rec(x)) for x in n.args])
                 raise Undecidable('call')
             from ..rules.tables import std_sub
-            if bool(ev(expr, {}, attr=attr, call=call, sub=std_sub)) != (not (set(a) & set(b))):
-                return False
+            res = []
+            mini.execute(fn.node, {}, sub=std_sub, call=call, attr=attr, result=res)
+            if len(res) != 1:
+                return None
+            if bool(res[0]) != (not (set(a) & set(b))):
+                return (a, b)
         return True
-    except Undecidable:
+    except (Undecidable, TypeError, IndexError, ValueError):
         return None
 
 
@@ -57,11 +65,12 @@ def independence(run, repo, pkg):
     gi = gate.methods['independent_from']
     rets = [st.value for st, _ in walk(gi.node) if isinstance(st, ast.Return)]
     other = gi.posparams[1]
-    verdict = indep_truth(rets[0], other) if len(rets) == 1 else None
+    verdict = indep_truth(gi, other)
     if verdict is None:
-        run.undecided('R11.indep', gi, 'independent_from', 'return expression not evaluable on concrete qubit tuples')
+        run.undecided('R11.indep', gi, 'independent_from', 'predicate not executable on concrete qubit tuples')
     else:
-        run.check(verdict, 'R11.indep', gi, rets[0], 'two gates are independent iff their qubit sets are disjoint')
+        run.check(verdict is True, 'R11.indep', gi, rets[0] if len(rets) == 1 else 'independent_from',
+                  'two gates are independent iff their qubit sets are disjoint (differs for qubits %s and %s)' % (verdict if verdict is not True else ('', '')))
     li = layer.methods['independent_from']
     rets = [st.value for st, _ in walk(li.node) if isinstance(st, ast.Return)]
     o2 = li.posparams[1]
@@ -141,6 +150,23 @@ def check(run):
                 takes = [n for n in ast.walk(cm.node) if isinstance(n, ast.Call) and isinstance(n.func, ast.Attribute)
                          and n.func.attr == 'take' and norm(n.func.value) == 'self']
                 run.check(len(takes) == 1, 'R10.order', cm, 'self.take(gate)', 'every gate of the other circuit is taken exactly once')
+                # every way through compose that does not raise re-takes the gates: a path around the loop either drops the other
+                # circuit or adopts its layers
+                from ..rules import guards as G_, effect as E_
+                for pth, end in G_.paths(cm.node.body):
+                    if end == 'raise':
+                        continue
+                    through = any(not isinstance(x, tuple) and any(n is t for t in takes for n in ast.walk(x)) for x in pth)
+                    conds = ' and '.join(('' if x[2] else 'not ') + norm(x[1]) for x in pth if isinstance(x, tuple))[:120]
+                    if not through:
+                        # a path around the loop is harmless only if it is taken for an empty argument, which its condition must have looked at
+                        looks = any(isinstance(x, tuple) and any(isinstance(a, ast.Attribute) and norm(a.value).split('.')[0] == oth and a.attr != 'N'
+                                                                 for a in ast.walk(x[1])) for x in pth)
+                        if looks:
+                            continue
+                    run.check(through, 'R10.order', cm, 'path [%s]' % conds, 'this path through compose returns without taking the gates of the other circuit one by one, '
+                              'and its condition never looks at what the other circuit contains')
+                E_.check_no_capture(run, eff, cm)
     K.mask_function(run, repo, K.PY_U)
     K.mask_function(run, repo, K.TC_U)
     entries = []
@@ -159,6 +185,7 @@ def check(run):
     run.floor('R13.maskfn', 6)
     run.floor('R10.gen', 12)
     run.floor('R10.order', 8)
+    run.floor('R4e', 2)
     run.floor('R10.fold', 3)
     run.floor('R10.link', 7)
     run.floor('R11.take', 8)
